@@ -12,6 +12,9 @@ use std::panic::{catch_unwind, AssertUnwindSafe};
 pub enum Delivery {
     Ints,
     Bytes,
+    /// one source handing over some blocks as integers and others as packed bytes (allowed by the trait):
+    /// reads 0,1 integers, 2 bytes, 3 integers, 4,5 bytes, ... (pattern of period 6)
+    Mixed,
 }
 
 /// A user-defined `Source` over an interleaved vector with optional faults.
@@ -94,9 +97,14 @@ impl Source for VecSource {
         let end = self.pos.saturating_add(want).min(self.data.len());
         let chunk = &self.data[self.pos..end];
         if !chunk.is_empty() || self.fill_at_eof {
-            match self.delivery {
-                Delivery::Ints => dest.fill_interleaved(chunk)?,
-                Delivery::Bytes => {
+            let as_ints = match self.delivery {
+                Delivery::Ints => true,
+                Delivery::Bytes => false,
+                Delivery::Mixed => matches!(k % 6, 0 | 1 | 3),
+            };
+            match as_ints {
+                true => dest.fill_interleaved(chunk)?,
+                false => {
                     dest.fill_le_bytes(&to_le_bytes(chunk, self.bytes_per_sample), self.bytes_per_sample)?
                 }
             }
